@@ -429,7 +429,7 @@ pub mod trace {
                     v.push(format!("{} {}", event.metadata().level(), s));
                 }
             });
-            if let Ok(mut g) = GLOBAL.try_lock() {
+            if let Ok(mut g) = GLOBAL.lock() {
                 if let Some(v) = g.as_mut() {
                     v.push(format!("{} {}", event.metadata().level(), s));
                 }
